@@ -7,7 +7,7 @@ C45 line protocol (see `harness/props/c45.py`).
   check <event>*            -> ok <balanced 0|1>          (the Lean stack checker on an arbitrary word)
   early <be l|m> <garbage 0|1> <fid> -> ok <event>*       (error exit before the start macro)
 
-  stmt (prefix form):  E | S ln | F ln c | R ln | P ln | B ln | C ln | Y ln t
+  stmt (prefix form):  E | S ln | F ln c | R ln | P ln | Z ln (error exit without exception) | B ln | C ln | Y ln t
      | K ln fid first last kind stmt | X ln raises n event^n | Q stmt stmt
      | TF ln stmt stmt | TE ln stmt lnExc stmt | I stmt stmt
   event: <k><fid>:<a>:<b>   k = s start, m resume, r return, u unwind, y yield, l line
@@ -69,6 +69,7 @@ def parseStmt : Nat → List String → Option (Stmt × List String)
       | _, _ => none
     | "R" :: ln :: r => ln.toNat?.map fun l => (.ret l, r)
     | "P" :: ln :: r => ln.toNat?.map fun l => (.retPar l, r)
+    | "Z" :: ln :: r => ln.toNat?.map fun l => (.stopNoExc l, r)
     | "B" :: ln :: r => ln.toNat?.map fun l => (.brk l, r)
     | "C" :: ln :: r => ln.toNat?.map fun l => (.cont l, r)
     | "Y" :: ln :: t :: r => match ln.toNat?, t.toNat? with
